@@ -96,7 +96,7 @@ theorem invC_handover {P : Proto} {limit pre I : Nat} {c : Cfg} (h : InvC P limi
     have old := h.thr t
     have hne : (c.threads t).pc ≠ .idle := by rw [hp.1]; simp
     refine invC_upd h t { c.threads t with pc := .locked } _ ?_ rfl ?_ ?_ ?_ ?_
-    · exact base_congr h.base rfl rfl rfl
+    · exact base_congr h.base rfl rfl rfl rfl
     · exact ⟨old.only, Or.inr (Or.inr (Or.inl rfl)), old.act, fun _ => old.wact hne, fun _ => old.held hne,
         fun v hh => by cases hh⟩
     · intro j _ hj
@@ -120,7 +120,7 @@ theorem invC_handover {P : Proto} {limit pre I : Nat} {c : Cfg} (h : InvC P limi
         simp [e, hi] at this
       · have := hnone j; rw [e] at this; cases this
       · have := hnone j; rw [e] at this; cases this
-    refine ⟨base_congr h.base rfl rfl rfl, ?_, h.excl, h.wmem⟩
+    refine ⟨base_congr h.base rfl rfl rfl rfl, ?_, h.excl, h.wmem⟩
     intro i
     have old := h.thr i
     exact ⟨old.only, old.shape, old.act, old.wact, fun hh => absurd (hidle i) hh, old.evi⟩
@@ -237,7 +237,7 @@ theorem invC_step {P : Proto} {limit pre I : Nat} {c : Cfg} (h : InvC P limit pr
       simp only [hm, hfu, if_true]
       by_cases hl : (c.threads tid).inst ∈ c.locks
       · simp only [hl, if_true]
-        refine invC_upd h tid { c.threads tid with pc := .waiting } (waitCfg c tid) (base_blk h.base tid rfl rfl rfl) rfl
+        refine invC_upd h tid { c.threads tid with pc := .waiting } (waitCfg c tid) (base_blk h.base tid rfl rfl rfl rfl) rfl
           ?_ ?_ ?_ ?_
         · refine ⟨old.only, Or.inr (Or.inl rfl), old.act, fun _ => hI, fun _ => by rw [← hI]; exact hl, ?_⟩
           intro v hv; cases hv
@@ -260,7 +260,7 @@ theorem invC_step {P : Proto} {limit pre I : Nat} {c : Cfg} (h : InvC P limit pr
             rw [← hI] at this
             exact absurd this hl
         exact invC_enter h tid hm hs hne (Or.inl hpc) hid
-    · exact ⟨base_blk (c' := blkCfg c tid) h.base tid rfl rfl rfl, h.thr, h.excl, h.wmem⟩
+    · exact ⟨base_blk (c' := blkCfg c tid) h.base tid rfl rfl rfl rfl, h.thr, h.excl, h.wmem⟩
     · -- locked (handed over)
       rename_i hpc
       simp only [hfu, if_true]
@@ -292,6 +292,13 @@ theorem invC_step {P : Proto} {limit pre I : Nat} {c : Cfg} (h : InvC P limit pr
       have her : c.occ.erase v = r := by rw [hocc]; simp
       rw [her]
       exact invC_admit_evict h tid v r hm hne hocc hid
+    · rename_i r a hpc
+      rcases old.shape with e | e | e | ⟨v, e⟩ <;> rw [hpc] at e <;> cases e
+    · rename_i k hpc
+      rcases old.shape with e | e | e | ⟨v, e⟩ <;> rw [hpc] at e <;> cases e
+  · rename_i fa _ hops
+    have := old.only (.revoke fa) (by rw [hops]; exact List.mem_cons_self)
+    cases this
   · rename_i hops
     have := old.only .other (by rw [hops]; exact List.mem_cons_self)
     cases this
